@@ -247,6 +247,10 @@ impl Outlines<'_> {
 }
 
 trait Scaler {
+    /// True if a glyph that has a header but no contours should be loaded
+    /// as if it had no data at all.
+    const EMPTY_IF_NO_CONTOURS: bool;
+
     fn outlines(&self) -> &Outlines;
     fn setup_phantom_points(
         &mut self,
@@ -274,6 +278,14 @@ trait Scaler {
         if recurse_depth > GLYF_COMPOSITE_RECURSION_LIMIT {
             return Err(DrawError::RecursionLimitExceeded(glyph_id));
         }
+        let glyph = match glyph {
+            Some(Glyph::Simple(simple))
+                if Self::EMPTY_IF_NO_CONTOURS && simple.number_of_contours() == 0 =>
+            {
+                &None
+            }
+            _ => glyph,
+        };
         let bounds = match &glyph {
             Some(glyph) => [glyph.x_min(), glyph.x_max(), glyph.y_min(), glyph.y_max()],
             _ => [0; 4],
@@ -469,6 +481,12 @@ impl<'a> FreeTypeScaler<'a> {
 }
 
 impl Scaler for FreeTypeScaler<'_> {
+    // FreeType treats a glyph with zero contours as a "space glyph" even
+    // if it has a header: the bounding box is zeroed, no instructions are
+    // executed and the phantom points are not rounded.
+    // See <https://gitlab.freedesktop.org/freetype/freetype/-/blob/57617782464411201ce7bbc93b086c1b4d7d84a5/src/truetype/ttgload.c#L1729>
+    const EMPTY_IF_NO_CONTOURS: bool = true;
+
     fn setup_phantom_points(
         &mut self,
         bounds: [i16; 4],
@@ -990,6 +1008,9 @@ impl Scaler for FreeTypeScaler<'_> {
 }
 
 impl Scaler for HarfBuzzScaler<'_> {
+    // HarfBuzz computes phantom points from the header for such glyphs.
+    const EMPTY_IF_NO_CONTOURS: bool = false;
+
     fn setup_phantom_points(
         &mut self,
         bounds: [i16; 4],
